@@ -362,3 +362,15 @@ Proof.
   - intros q Hq. rewrite Ho2. fold hi. replace ((Lpos - 1 <? q) && (q <=? hi)) with false by lia.
     rewrite Ho1. replace (q =? start) with false by lia. apply Hz. lia.
 Qed.
+
+(* ---------- misc ------------------------------------------------------------------------------ *)
+
+Lemma NoDup_map_inj_in {A B} (f : A -> B) (l : list A) : NoDup l ->
+  (forall x y, In x l -> In y l -> f x = f y -> x = y) -> NoDup (map f l).
+Proof.
+  induction 1 as [|x l Hnin Hnd IH]; intros Hinj; cbn [map]; constructor.
+  - intros Hin. apply in_map_iff in Hin as (y & Hy & Hyl). apply Hnin.
+    rewrite (Hinj x y (or_introl eq_refl) (or_intror Hyl) (eq_sym Hy)). assumption.
+  - apply IH. intros a c Ha Hc. apply Hinj; right; assumption.
+Qed.
+
